@@ -82,6 +82,24 @@ type Table struct {
 	Name string
 	Cols []Column
 	Rows [][]Value
+
+	sc *scope // scope under the table's own schema and name, built by DB.Add (read-only afterwards)
+}
+
+// scope returns the table's columns as a FROM scope under the given schema and alias.
+func (t *Table) scope(db, alias string) *scope {
+	if sc := t.sc; sc != nil && len(sc.cols) > 0 && sc.cols[0].db == db && sc.cols[0].tbl == alias {
+		return sc
+	}
+	return t.newScope(db, alias)
+}
+
+func (t *Table) newScope(db, alias string) *scope {
+	sc := &scope{cols: make([]scol, 0, len(t.Cols))}
+	for _, c := range t.Cols {
+		sc.cols = append(sc.cols, scol{db: db, tbl: alias, name: strings.ToLower(c.Name), typ: c.Type})
+	}
+	return sc
 }
 
 // DB is a set of tables addressed by (schema, table); Default is the schema used for
@@ -99,7 +117,10 @@ func NewDB(def string) *DB { return &DB{Default: strings.ToLower(def), Tables: m
 func key(db, table string) string { return strings.ToLower(db) + "." + strings.ToLower(table) }
 
 // Add registers an (empty or filled) table.
-func (d *DB) Add(t *Table) { d.Tables[key(t.DB, t.Name)] = t }
+func (d *DB) Add(t *Table) {
+	t.sc = t.newScope(strings.ToLower(t.DB), strings.ToLower(t.Name))
+	d.Tables[key(t.DB, t.Name)] = t
+}
 
 // Get looks a table up; schema "" means the default schema.
 func (d *DB) Get(schema, table string) (*Table, error) {
